@@ -3,6 +3,8 @@
  *   new / <config lines, see hwv_load.h> / load
  *   misc <depth> <index> <name>      hwloc_topology_insert_misc_object below hwloc_get_obj_by_depth(depth,index)
  *   ud <depth> <index>               set a non-NULL userdata on that object
+ *   group <dont_merge> <type> <i>... hwloc_topology_alloc_group_object + hwloc_obj_add_other_obj_sets of the objects
+ *                                    hwloc_get_obj_by_type(type, i) + attr->group.dont_merge + hwloc_topology_insert_group_object
  *   restrict <inf:hex> <flags>       hwloc_topology_restrict(set, flags)
  *   restrictnull <flags>             (not used: set must not be NULL per the API)
  *   dump / check / destroy / echo <text>
@@ -84,6 +86,25 @@ int main(void)
         printf("ud ok\n");
         dirty = 1;
       }
+    } else if (!strncmp(line, "group ", 6)) {
+      int dm = 0, ty = 0, used = 0, nadded = 0; unsigned idx;
+      const char *p = line + 6;
+      hwloc_obj_t g, res;
+      if (!loaded) { printf("group notloaded\n"); fflush(stdout); continue; }
+      if (sscanf(p, "%d %d%n", &dm, &ty, &used) < 2) { printf("bad-line\n"); fflush(stdout); continue; }
+      p += used;
+      g = hwloc_topology_alloc_group_object(t);
+      if (!g) { printf("group alloc-null errno=%s\n", hwv_errno_class(errno)); fflush(stdout); continue; }
+      while (sscanf(p, "%u%n", &idx, &used) == 1) {
+        hwloc_obj_t o = hwloc_get_obj_by_type(t, (hwloc_obj_type_t)ty, idx);
+        if (o && o->cpuset) { hwloc_obj_add_other_obj_sets(g, o); nadded++; }
+        p += used;
+      }
+      g->attr->group.dont_merge = (unsigned char)(dm != 0);
+      errno = 0;
+      res = hwloc_topology_insert_group_object(t, g);   /* frees g itself when it is not inserted */
+      printf("group %s members=%d errno=%s\n", !res ? "null" : res == g ? "ok" : "merged", nadded, res ? "0" : hwv_errno_class(errno));
+      dirty = 1;
     } else if (!strncmp(line, "restrict ", 9)) {
       char sets[4096]; unsigned long fl = 0;
       hwloc_bitmap_t set;
